@@ -209,7 +209,7 @@ pub fn params(cfg: &Cfg) -> Params {
         }
     } else if cfg.tier == "thorough" {
         Params {
-            k: 48,
+            k: 384,
             word_stride: 1,
             full_mem_every: 1,
             threads: cfg.threads,
